@@ -4,9 +4,11 @@ import (
 	"bytes"
 	"crypto"
 	"fmt"
+	"github.com/ProtonMail/go-crypto/openpgp/packet"
 	"os"
 	"path/filepath"
 	"sort"
+	"strings"
 
 	"github.com/sylabs/sif/v2/pkg/sif"
 	"verifharness/internal/h"
@@ -146,8 +148,21 @@ func runSignVerify(s *summary, k *h.Keys, root *h.Rng, n int, thorough bool, add
 			}
 			desc += "; reloaded before signing"
 		}
-		if sc := h.RunSign(k, 1000+i, before, cfg); sc != nil {
-			scases = append(scases, sc)
+		sc0 := h.RunSign(k, 1000+i, before, cfg)
+		if sc0 != nil {
+			scases = append(scases, sc0)
+		}
+		// C12: with the deterministic option, a fixed signature time, the PGP salt disabled and
+		// a deterministic algorithm (Ed25519 under DSSE; RSA or EdDSA under PGP) signing is reproducible
+		if sc0 != nil && cfg.TimeMode == 0 && reproducibleScheme(k, cfg) {
+			s.OracleRuns["signing-twice-gives-the-same-bytes"]++
+			ns := cfg
+			ns.NoSalt = true // "salt disabled"
+			if sc0, sc1 := h.RunSign(k, 1000+i, before, ns), h.RunSign(k, 1000+i, before, ns); sc0 != nil && sc1 != nil && sc0.Err == sc1.Err && !bytes.Equal(sc0.After, sc1.After) {
+				s.Oracle = append(s.Oracle, h.Finding{Property: "C12", Case: i,
+					What:  fmt.Sprintf("signing the same image twice with the deterministic option and a fixed signature time gives different bytes (first at %d)", firstDiffBytes(sc0.After, sc1.After)),
+					Input: desc})
+			}
 		}
 		// requests the signer must refuse, and what it leaves behind
 		if i%3 == 0 {
@@ -255,6 +270,23 @@ func runSignVerify(s *summary, k *h.Keys, root *h.Rng, n int, thorough bool, add
 			}
 		}
 	}
+}
+
+// reproducibleScheme: the signature algorithm itself is deterministic.
+func reproducibleScheme(k *h.Keys, cfg h.SignConfig) bool {
+	if cfg.Scheme == "pgp" {
+		switch k.Entities[cfg.Entity].PrimaryKey.PubKeyAlgo {
+		case packet.PubKeyAlgoRSA, packet.PubKeyAlgoEdDSA, packet.PubKeyAlgoEd25519:
+			return true
+		}
+		return false
+	}
+	for _, n := range cfg.DSSEKeys {
+		if !strings.HasPrefix(n, "ed25519") {
+			return false
+		}
+	}
+	return len(cfg.DSSEKeys) > 0
 }
 
 // signTimes (C12): with OptSignDeterministic every time field signing writes is the zero time
@@ -1005,7 +1037,14 @@ func runLegacy(s *summary, k *h.Keys, root *h.Rng, n int, thorough bool, addCase
 				continue
 			}
 			ms := append(h.BitFlips(r, lb.img, 1), h.Catalogue(r, lb.img)...)
-			ms = sample(r, ms, n)
+			// the fingerprint recorded on a signature is always tried: one bit, and blanked
+			var fpm []h.Mutation
+			for _, m := range ms {
+				if strings.Contains(m.What, "fingerprint[19]^=1") || strings.Contains(m.What, "fingerprint:=0") {
+					fpm = append(fpm, m)
+				}
+			}
+			ms = append(sample(r, ms, n), sample(r, fpm, 8)...)
 			ms = append(ms, boundaryShifts(lb.img)...)
 			ms = append(ms, forgedLegacy(lb.img)...)
 			for _, m := range ms {
